@@ -66,6 +66,7 @@ type Unit struct {
 	defAxioms   string
 	defAxiomsDone bool
 	OnNoReturn  func(fv *FV, cs *CalleeSpec, st *State)
+	ListIters   map[string]*ListIter // "<type>.<method>" -> list iterator modelled by range-over-func (expr.go, ListIter)
 }
 
 type FuncInfo struct {
